@@ -445,7 +445,7 @@ fn two_own_case(b: &str, s12: &str, s1: &str, s2: &str, st: &mut Stats) -> Resul
     Ok(())
 }
 
-fn suffix_keys_of_base(base: &str, chunk: usize, st: &mut Stats) -> Result<(), Failure> {
+fn suffix_keys_of_base(base: &str, which: usize, chunk: usize, st: &mut Stats) -> Result<(), Failure> {
     let case0 = || json!({"all_suffix_keys": {"base": base}});
     let pf = |p: crate::driver::PanicInfo| Failure::new(&panic_kind(&p), p.to_string(), case0());
     let sb = Sandbox::new();
@@ -469,8 +469,11 @@ fn suffix_keys_of_base(base: &str, chunk: usize, st: &mut Stats) -> Result<(), F
         st.label("store-has-an-entry-under-the-empty-word");
     }
     let l = ctx.type_frontend(base).map_err(pf)?.unwrap();
-    // learn the last dictionary-looking candidate that is not preselected
-    let Some(idx) = (0..l.cands.len()).rev().find(|i| *i != l.sel && l.cands[*i].chars().all(crate::model::is_bengali_block)) else {
+    // learn one of the dictionary-looking candidates that are not preselected: those ending in khanda-ta or anusvara
+    // (the joining rules rewrite them) first, then from the end of the list
+    let mut order: Vec<usize> = (0..l.cands.len()).rev().filter(|i| *i != l.sel && l.cands[*i].chars().all(crate::model::is_bengali_block)).collect();
+    order.sort_by_key(|i| !matches!(l.cands[*i].chars().last(), Some('\u{09CE}') | Some('\u{0982}')));
+    let Some(&idx) = order.get(which) else {
         ctx.finish().map_err(pf)?;
         return Ok(());
     };
@@ -518,13 +521,13 @@ fn suffix_keys_of_base(base: &str, chunk: usize, st: &mut Stats) -> Result<(), F
 fn all_suffix_keys(run: &Run) {
     // the last five are bases whose suffixed forms are themselves suffix keys ("ta"+"r" = "tar"): the text as a whole
     // and its decomposition compete
-    let bases = ["sesh", "kolkol", "onno", "amar", "hothat", "rong", "ta", "sokol", "shob", "khana", "mala"];
-    let items: Vec<(usize, usize)> = (0..bases.len()).flat_map(|b| (0..8usize).map(move |chunk| (b, chunk))).collect();
+    let bases = ["sesh", "kolkol", "onno", "amar", "hothat", "rong", "ebong", "sot", "ta", "sokol", "shob", "khana", "mala"];
+    let items: Vec<(usize, usize, usize)> = (0..bases.len()).flat_map(|b| (0..3usize).flat_map(move |which| (0..8usize).map(move |chunk| (b, which, chunk)))).collect();
     run.exhaustive(
         "learned-base-x-every-suffix-key",
         &items,
         |_| (),
-        |&(bi, chunk), st, _| suffix_keys_of_base(bases[bi], chunk, st),
+        |&(bi, which, chunk), st, _| suffix_keys_of_base(bases[bi], which, chunk, st),
     );
     run.require_label("suffix-key-checked-with-a-learned-base", 1500);
     run.require_label("store-has-an-entry-under-the-empty-word", 8);
@@ -558,8 +561,10 @@ pub fn replay(run: &Run, case: &Value) -> Result<(), Failure> {
     if let Some(a) = case.get("all_suffix_keys") {
         // the part is cheap: the replay runs the whole base again
         let base = a["base"].as_str().unwrap_or_default().to_string();
-        for chunk in 0..8 {
-            suffix_keys_of_base(&base, chunk, &mut Stats::new())?;
+        for which in 0..3 {
+            for chunk in 0..8 {
+                suffix_keys_of_base(&base, which, chunk, &mut Stats::new())?;
+            }
         }
         return Ok(());
     }
